@@ -9,6 +9,11 @@ UNIT = dict(
     rules=[("R1", ("triggers",))],
     extra_params=[],
     fns={
+        "HealthCheckedContext::new": dict(rules=[
+            ("sub", "R16-dropped-fields", r"\bcontext,\s*name: name\.into\(\),", "", 1),
+            ("sub", "R16-dropped-fields", r"extensions: Arc::new\(RwLock::new\(HashMap::new\(\)\)\),", "", 1),
+            ("sub", "R8-lock", r"state: Arc::new\(RwLock::new\((ContextState \{[^}]*\})\)\),", r"state: \1,", 1),
+        ]),
         "HealthCheckedContext::status": dict(rules=[R]),
         "HealthCheckedContext::set_status": dict(rules=[W]),
         "HealthCheckedContext::set_last_check": dict(rules=[W]),
